@@ -724,7 +724,7 @@ func (self *LockCommandData) DecodeLockCommand(lockCommand *LockCommand) error {
 		if dataLen <= 0 {
 			return nil
 		}
-		if len(self.Data) < valueOffset+dataLen+68 {
+		if dataLen < 2 || len(self.Data) < valueOffset+dataLen+68 {
 			return errors.New("data size error")
 		}
 		copy(buf[4:], self.Data[valueOffset+68:valueOffset+dataLen+68])
